@@ -1,12 +1,1174 @@
-//! C17 — not implemented yet.
+//! C17 — EVM instruction conformance: the real EVM actor against `refevm`. DESIGN §3 C17.
+//!
+//! Enumeration (no BFS): three layers of programs, each deployed through `EAM.CreateExternal`
+//! and run through `EVM.InvokeContract`, compared with the reference interpreter on
+//!   * outcome class (return / revert / failure kind),
+//!   * return or revert bytes,
+//!   * storage slots 0..3 read back through `EVM.GetStorageAt`.
+//! Programs on which the reference model is undefined (step limit, memory grey zone) are
+//! excluded and counted.
+use crate::evmkit::{self, Asm, World, classify, op};
+use crate::refevm::{self, Account, Limits, Outcome, Verdict, Word, max_word, two_pow, w};
+use cid::Cid;
+use mcx::{PathStep, ViolationReport};
+use serde_json::{Value, json};
+use std::collections::{BTreeMap, HashMap};
+use std::sync::atomic::{AtomicBool, AtomicUsize, Ordering};
+use std::time::Instant;
 
-pub fn run(_tier: &str) -> ! {
-    eprintln!("C17: check not implemented");
-    std::process::exit(2)
+// ------------------------------------------------------------------------------ cases
+
+#[derive(Clone, Debug)]
+pub struct Case {
+    pub code: Vec<u8>,
+    /// Call datas of consecutive messages to the same deployed contract.
+    pub calls: Vec<Vec<u8>>,
+    pub desc: String,
+    /// Instruction evaluations this case stands for (layer 1 batches: many; otherwise 1 per call).
+    pub weight: u64,
+}
+
+pub struct CaseResult {
+    pub excluded: Option<String>,
+    pub violation: Option<String>,
+    pub nontrivial: bool,
+    pub outcomes: Vec<Outcome>,
+    pub evaluations: u64,
+}
+
+pub struct Bench<'a> {
+    pub w: &'a World,
+    pub lim: Limits,
+    /// contract_state CID -> values of slots 0..3 as read through GetStorageAt (content
+    /// addressed, hence sound to reuse)
+    slot_cache: std::cell::RefCell<HashMap<Cid, [Word; 4]>>,
+}
+
+impl<'a> Bench<'a> {
+    pub fn new(w: &'a World) -> Self {
+        Bench { w, lim: Limits::default(), slot_cache: Default::default() }
+    }
+
+    fn slots(&self, d: &evmkit::Deployed) -> Result<[Word; 4], String> {
+        let st: Option<fil_actor_evm::State> = self.w.vm.state_of(d.id);
+        let key = st.map(|s| s.contract_state);
+        if let Some(k) = &key
+            && let Some(v) = self.slot_cache.borrow().get(k)
+        {
+            return Ok(v.clone());
+        }
+        let mut out: [Word; 4] = Default::default();
+        for (i, o) in out.iter_mut().enumerate() {
+            *o = self.w.storage_at(d, &w(i as u64)).map_err(|inv| format!("GetStorageAt({i}) failed: {}", inv.tree()))?;
+        }
+        if let Some(k) = key {
+            let mut c = self.slot_cache.borrow_mut();
+            if c.len() > 200_000 {
+                c.clear();
+            }
+            c.insert(k, out.clone());
+        }
+        Ok(out)
+    }
+
+    /// Run one case on the reference model and on the real actor and compare.
+    pub fn run(&self, c: &Case) -> CaseResult {
+        let mut res = CaseResult { excluded: None, violation: None, nontrivial: false, outcomes: vec![], evaluations: 0 };
+        // reference model first: undefined programs are excluded before touching the actor
+        let mut acct = Account::default();
+        let mut expect = vec![];
+        for cd in &c.calls {
+            let r = refevm::execute(&c.code, cd, &mut acct, self.lim);
+            match r.verdict {
+                Verdict::Defined(o) => {
+                    if r.steps >= 2 {
+                        res.nontrivial = true;
+                    }
+                    let snapshot: [Word; 4] = [acct.slot(&w(0)), acct.slot(&w(1)), acct.slot(&w(2)), acct.slot(&w(3))];
+                    expect.push((o, snapshot));
+                }
+                Verdict::Undefined(u) => {
+                    res.excluded = Some(match u {
+                        refevm::Undefined::StepLimit => "reference model exceeded the step limit".to_string(),
+                        refevm::Undefined::MemoryGreyZone => "memory beyond the model cap but within 2^32".to_string(),
+                        refevm::Undefined::OutsideModel(o) => format!("opcode 0x{o:02x} outside the model"),
+                    });
+                    res.nontrivial = false;
+                    return res;
+                }
+            }
+        }
+        self.w.reset();
+        let (d, inv) = self.w.deploy(&c.code);
+        let Some(d) = d else {
+            res.violation = Some(format!("deployment of the program failed: {}", inv.tree()));
+            return res;
+        };
+        if inv.any_panicked() {
+            res.violation = Some(format!("panic during deployment: {}", inv.tree()));
+            return res;
+        }
+        for (i, cd) in c.calls.iter().enumerate() {
+            let inv = self.w.invoke(&d, cd);
+            let got = classify(&inv);
+            res.evaluations += 1;
+            let (want, want_slots) = &expect[i];
+            if inv.any_panicked() {
+                res.violation = Some(format!("call {i}: the actor panicked: {}", inv.tree()));
+                return res;
+            }
+            if &got != want {
+                res.violation = Some(format!(
+                    "call {i} (calldata {}): actor {} != reference {}",
+                    hex::encode(cd),
+                    got.brief(),
+                    want.brief()
+                ));
+                return res;
+            }
+            match self.slots(&d) {
+                Err(e) => {
+                    res.violation = Some(format!("call {i}: {e}"));
+                    return res;
+                }
+                Ok(s) => {
+                    if &s != want_slots {
+                        res.violation = Some(format!(
+                            "call {i} (calldata {}): storage slots 0..3 actor {:x?} != reference {:x?}",
+                            hex::encode(cd),
+                            s,
+                            want_slots
+                        ));
+                        return res;
+                    }
+                }
+            }
+            res.outcomes.push(got);
+        }
+        self.w.reset();
+        res
+    }
+}
+
+fn case_json(c: &Case) -> Value {
+    json!({"code": hex::encode(&c.code), "calldatas": c.calls.iter().map(hex::encode).collect::<Vec<_>>(), "desc": c.desc})
+}
+
+fn case_from_json(v: &Value) -> Option<Case> {
+    Some(Case {
+        code: hex::decode(v["code"].as_str()?).ok()?,
+        calls: v["calldatas"].as_array()?.iter().map(|x| hex::decode(x.as_str().unwrap_or("")).unwrap_or_default()).collect(),
+        desc: v["desc"].as_str().unwrap_or("").to_string(),
+        weight: 1,
+    })
+}
+
+// ------------------------------------------------------------------------------ layer engine
+
+pub trait Gen: Sync {
+    fn name(&self) -> String;
+    fn len(&self) -> usize;
+    fn get(&self, i: usize) -> Case;
+    /// When a (batched) case fails: smaller cases to try, to report the most readable one.
+    fn split(&self, _c: &Case) -> Vec<Case> {
+        vec![]
+    }
+    fn describe(&self) -> Value;
+}
+
+#[derive(Default)]
+pub struct LayerStats {
+    pub name: String,
+    pub cases: u64,
+    pub cases_run: u64,
+    pub evaluations: u64,
+    pub instr_evaluations: u64,
+    pub excluded: BTreeMap<String, u64>,
+    pub outcome_hist: BTreeMap<String, u64>,
+    pub nontrivial_keys: Vec<[u8; 16]>,
+    pub violations: Vec<(usize, Case, String)>,
+    pub samples: Vec<Value>,
+    pub capped: bool,
+    pub wall_s: f64,
+    pub describe: Value,
+}
+
+fn clip(mut h: String) -> String {
+    if h.len() > 600 {
+        let n = h.len() / 2;
+        h.truncate(600);
+        h.push_str(&format!("..({n} bytes)"));
+    }
+    h
+}
+
+fn outcome_key(o: &Outcome) -> String {
+    match o {
+        Outcome::Return(d) => if d.is_empty() { "return(empty)".into() } else { "return(data)".into() },
+        Outcome::Revert(d) => if d.is_empty() { "revert(empty)".into() } else { "revert(data)".into() },
+        Outcome::Failure(f) => format!("failure({f:?})"),
+    }
+}
+
+pub fn run_layer(g: &dyn Gen, threads: usize, deadline: Option<Instant>) -> LayerStats {
+    let t0 = Instant::now();
+    let n = g.len();
+    let next = AtomicUsize::new(0);
+    let stop = AtomicBool::new(false);
+    // first index that need not be run any more: end of the first chunk containing a violation
+    let limit = AtomicUsize::new(n);
+    const CHUNK: usize = 128;
+    let sample_at: Vec<usize> = (0..5).map(|k| (n.saturating_sub(1)) * (k + 1) / 5).collect();
+    let parts = evmkit::parallel(threads, |_, world| {
+        let b = Bench::new(world);
+        let mut st = LayerStats::default();
+        loop {
+            if stop.load(Ordering::Relaxed) {
+                break;
+            }
+            if let Some(d) = deadline
+                && Instant::now() > d
+            {
+                stop.store(true, Ordering::Relaxed);
+                break;
+            }
+            let lo = next.fetch_add(CHUNK, Ordering::Relaxed);
+            if lo >= n.min(limit.load(Ordering::Relaxed)) {
+                break;
+            }
+            for i in lo..(lo + CHUNK).min(n) {
+                if i >= limit.load(Ordering::Relaxed) {
+                    break;
+                }
+                let c = g.get(i);
+                let r = b.run(&c);
+                st.cases += 1;
+                if let Some(e) = r.excluded {
+                    *st.excluded.entry(e).or_default() += 1;
+                    continue;
+                }
+                st.cases_run += 1;
+                st.evaluations += r.evaluations;
+                if let Some(v) = r.violation {
+                    // most readable failing sub-case, if the generator can split
+                    let mut reported = (c.clone(), v);
+                    for sub in g.split(&c) {
+                        let rs = b.run(&sub);
+                        if let Some(vs) = rs.violation {
+                            reported = (sub, vs);
+                            break;
+                        }
+                    }
+                    // replay before reporting: a disagreement that does not reproduce on the same
+                    // worker is a machinery error, not a verdict
+                    if b.run(&reported.0).violation.is_none() {
+                        reported.1 = format!("MACHINERY: not reproducible on immediate re-execution: {}", reported.1);
+                    }
+                    limit.fetch_min((lo + CHUNK).min(n), Ordering::Relaxed);
+                    if st.violations.len() < 5 {
+                        st.violations.push((i, reported.0, reported.1));
+                    }
+                    continue;
+                }
+                st.instr_evaluations += c.weight * c.calls.len() as u64;
+                for o in &r.outcomes {
+                    *st.outcome_hist.entry(outcome_key(o)).or_default() += 1;
+                }
+                if r.nontrivial {
+                    st.nontrivial_keys.push(mcx::hash_key(&[&c.code]));
+                }
+                if sample_at.contains(&i) {
+                    st.samples.push(json!({
+                        "layer": g.name(), "index": i, "program": clip(hex::encode(&c.code)), "desc": c.desc,
+                        "calldatas": c.calls.iter().map(hex::encode).collect::<Vec<_>>(),
+                        "outcomes_actor_equals_reference": r.outcomes.iter().map(|o| o.brief()).collect::<Vec<_>>(),
+                    }));
+                }
+            }
+        }
+        st
+    });
+    let mut out = LayerStats { name: g.name(), describe: g.describe(), ..Default::default() };
+    for p in parts {
+        out.cases += p.cases;
+        out.cases_run += p.cases_run;
+        out.evaluations += p.evaluations;
+        out.instr_evaluations += p.instr_evaluations;
+        for (k, v) in p.excluded {
+            *out.excluded.entry(k).or_default() += v;
+        }
+        for (k, v) in p.outcome_hist {
+            *out.outcome_hist.entry(k).or_default() += v;
+        }
+        out.nontrivial_keys.extend(p.nontrivial_keys);
+        out.violations.extend(p.violations);
+        out.samples.extend(p.samples);
+    }
+    // deterministic report: everything below the final limit was run completely
+    let final_limit = limit.load(Ordering::Relaxed);
+    out.violations.retain(|v| v.0 < final_limit);
+    out.violations.sort_by_key(|v| v.0);
+    out.violations.truncate(3);
+    out.samples.sort_by_key(|s| s["index"].as_u64());
+    out.capped = stop.load(Ordering::Relaxed) || (out.cases as usize) < n;
+    out.wall_s = t0.elapsed().as_secs_f64();
+    out
+}
+
+// ------------------------------------------------------------------------------ layer 1
+
+/// The boundary alphabet ℬ.
+pub fn boundary_words() -> Vec<Word> {
+    let p = two_pow;
+    let m = max_word();
+    let rep = |b: u8| refevm::word_from_be(&[b; 32]);
+    let mut v: Vec<Word> = vec![
+        w(0),
+        w(1),
+        w(2),
+        w(3),
+        w(7),
+        w(8),
+        w(15),
+        w(16),
+        w(30),
+        w(31),
+        w(32),
+        w(33),
+        w(0x7f),
+        w(0x80),
+        w(0xff),
+        w(0x100),
+        w(0x101),
+        w(0x7fff),
+        w(0x8000),
+        w(0xffff_ffff),
+        p(64) - w(1),
+        p(64),
+        p(64) + w(1),
+        p(128) - w(1),
+        p(128),
+        p(128) + w(1),
+        p(192),
+        p(248) - w(1),
+        p(248),
+        p(255) - w(1),
+        p(255),
+        p(255) + w(1),
+        &m - w(256),
+        &m - w(255),
+        &m - w(2),
+        &m - w(1),
+        m.clone(),
+        &m - (p(128) - w(1)),
+        &m - (p(64) - w(1)),
+        rep(0xaa),
+        rep(0x55),
+        rep(0x80),
+        rep(0x7f),
+        refevm::word_from_be(&(1u8..=32).collect::<Vec<u8>>()),
+    ];
+    let n = v.len();
+    v.dedup();
+    assert_eq!(n, v.len());
+    v
+}
+
+#[derive(Clone, Copy, Debug, PartialEq, Eq)]
+enum Form {
+    Un(u8),
+    Bin(u8),
+    Tern(u8),
+    /// `v k SSTORE k SLOAD` (op = SSTORE) or the transient pair (op = TSTORE): operands (k, v)
+    StoreLoad(u8),
+    /// `a scratch MSTORE8 scratch MLOAD`
+    Mstore8,
+    /// `a scratch+1 MSTORE scratch MLOAD` (unaligned store, aligned load)
+    MstoreUnaligned,
+    /// keccak over the first `b` bytes of the word `a` stored at scratch
+    Keccak,
+    /// 17 distinct words, DUPn, observe top
+    Dup(u8),
+    /// 17 distinct words, SWAPn, observe top
+    SwapTop(u8),
+    /// 17 distinct words, SWAPn, POP x n, observe top
+    SwapDeep(u8),
+    /// PUSHn with an n-byte pattern
+    Push(u8),
+}
+
+#[derive(Clone, Debug)]
+struct Eval {
+    form: Form,
+    args: Vec<Word>,
+}
+
+const SCRATCH: u64 = 0x3000;
+const RESULTS: u64 = 0;
+
+fn emit_eval(a: &mut Asm, e: &Eval) {
+    let x = &e.args;
+    match e.form {
+        Form::Un(o) => {
+            a.push_word(&x[0]).op(o);
+        }
+        Form::Bin(o) => {
+            a.push_word(&x[1]).push_word(&x[0]).op(o);
+        }
+        Form::Tern(o) => {
+            a.push_word(&x[2]).push_word(&x[1]).push_word(&x[0]).op(o);
+        }
+        Form::StoreLoad(o) => {
+            a.push_word(&x[1]).push_word(&x[0]).op(o).push_word(&x[0]).op(o - 1);
+        }
+        Form::Mstore8 => {
+            a.push_word(&x[0]).push(SCRATCH).op(op::MSTORE8).push(SCRATCH).op(op::MLOAD);
+        }
+        Form::MstoreUnaligned => {
+            a.push_word(&x[0]).push(SCRATCH + 1).op(op::MSTORE).push(SCRATCH).op(op::MLOAD);
+        }
+        Form::Keccak => {
+            a.push_word(&x[0]).push(SCRATCH).op(op::MSTORE).push_word(&x[1]).push(SCRATCH).op(op::KECCAK256);
+        }
+        Form::Dup(n) | Form::SwapTop(n) | Form::SwapDeep(n) => {
+            for i in 0..17u64 {
+                a.push(0x1111 * (i + 1));
+            }
+            match e.form {
+                Form::Dup(_) => {
+                    a.op(0x7f + n);
+                    // result = top; then drop the 17 originals after storing (done by caller via swap)
+                }
+                Form::SwapTop(_) => {
+                    a.op(0x8f + n);
+                }
+                _ => {
+                    a.op(0x8f + n);
+                    for _ in 0..n {
+                        a.op(op::POP);
+                    }
+                }
+            }
+        }
+        Form::Push(n) => {
+            let imm: Vec<u8> = (0..n).map(|i| 0x81 + i).collect();
+            a.push_exact(&imm);
+        }
+    }
+}
+
+/// Items left beneath the result by an evaluation (to be popped after the result is stored).
+fn leftovers(e: &Eval) -> usize {
+    match e.form {
+        Form::Dup(_) => 17,
+        Form::SwapTop(_) => 16,
+        Form::SwapDeep(n) => 16 - n as usize,
+        _ => 0,
+    }
+}
+
+fn batch_program(evals: &[Eval]) -> Vec<u8> {
+    let mut a = Asm::new();
+    for (i, e) in evals.iter().enumerate() {
+        emit_eval(&mut a, e);
+        a.push(RESULTS + 32 * i as u64).op(op::MSTORE);
+        for _ in 0..leftovers(e) {
+            a.op(op::POP);
+        }
+    }
+    a.push(32 * evals.len() as u64).push(RESULTS).op(op::RETURN);
+    a.finish()
+}
+
+fn eval_desc(e: &Eval) -> String {
+    format!("{:?}({})", e.form, e.args.iter().map(|x| format!("0x{x:x}")).collect::<Vec<_>>().join(", "))
+}
+
+pub struct Layer1 {
+    evals: Vec<Eval>,
+    batch: usize,
+    calldata: Vec<u8>,
+    summary: Value,
+}
+
+impl Layer1 {
+    pub fn new(tier: &str) -> Layer1 {
+        let b = boundary_words();
+        let mut evals = vec![];
+        let mut per_form: BTreeMap<String, u64> = BTreeMap::new();
+        let mut add = |form: Form, args: Vec<Word>, evals: &mut Vec<Eval>| {
+            let key = match form {
+                Form::Un(o) => format!("unary 0x{o:02x}"),
+                Form::Bin(o) => format!("binary 0x{o:02x}"),
+                Form::Tern(o) => format!("ternary 0x{o:02x}"),
+                Form::StoreLoad(o) => format!("store/load round trip 0x{o:02x}"),
+                Form::Mstore8 => "mstore8 + mload".to_string(),
+                Form::MstoreUnaligned => "unaligned mstore + mload".to_string(),
+                Form::Keccak => "keccak256 of a word prefix".to_string(),
+                Form::Dup(_) => "dup1..16".to_string(),
+                Form::SwapTop(_) | Form::SwapDeep(_) => "swap1..16 (both swapped positions)".to_string(),
+                Form::Push(_) => "push0..32".to_string(),
+            };
+            *per_form.entry(key).or_default() += 1;
+            evals.push(Eval { form, args });
+        };
+        for o in [op::ISZERO, op::NOT, op::CLZ, op::CALLDATALOAD] {
+            for x in &b {
+                add(Form::Un(o), vec![x.clone()], &mut evals);
+            }
+        }
+        for x in &b {
+            add(Form::Mstore8, vec![x.clone()], &mut evals);
+            add(Form::MstoreUnaligned, vec![x.clone()], &mut evals);
+            for s in [0u64, 1, 31, 32] {
+                add(Form::Keccak, vec![x.clone(), w(s)], &mut evals);
+            }
+        }
+        let bin = [
+            op::ADD, op::MUL, op::SUB, op::DIV, op::SDIV, op::MOD, op::SMOD, op::EXP, op::SIGNEXTEND, op::LT, op::GT,
+            op::SLT, op::SGT, op::EQ, op::AND, op::OR, op::XOR, op::BYTE, op::SHL, op::SHR, op::SAR,
+        ];
+        for o in bin {
+            for x in &b {
+                for y in &b {
+                    add(Form::Bin(o), vec![x.clone(), y.clone()], &mut evals);
+                }
+            }
+        }
+        for o in [op::SSTORE, op::TSTORE] {
+            for k in &b {
+                for v in &b {
+                    add(Form::StoreLoad(o), vec![k.clone(), v.clone()], &mut evals);
+                }
+            }
+        }
+        // ternary: full ℬ³ in the thorough tier, a 16-word sub-alphabet in the quick tier
+        let tb: Vec<Word> = if tier == "thorough" {
+            b.clone()
+        } else {
+            let pick = [0usize, 1, 2, 9, 10, 14, 15, 20, 21, 23, 24, 29, 30, 31, 35, 36];
+            pick.iter().map(|i| b[*i].clone()).collect()
+        };
+        for o in [op::ADDMOD, op::MULMOD] {
+            for x in &tb {
+                for y in &tb {
+                    for z in &tb {
+                        add(Form::Tern(o), vec![x.clone(), y.clone(), z.clone()], &mut evals);
+                    }
+                }
+            }
+        }
+        for n in 1..=16u8 {
+            add(Form::Dup(n), vec![], &mut evals);
+            add(Form::SwapTop(n), vec![], &mut evals);
+            add(Form::SwapDeep(n), vec![], &mut evals);
+        }
+        for n in 0..=32u8 {
+            add(Form::Push(n), vec![], &mut evals);
+        }
+        let summary = json!({
+            "boundary_alphabet_size": b.len(),
+            "ternary_alphabet_size": tb.len(),
+            "boundary_alphabet": b.iter().map(|x| format!("0x{x:x}")).collect::<Vec<_>>(),
+            "evaluations_per_form": per_form,
+            "batch": 48,
+        });
+        Layer1 { evals, batch: 48, calldata: (1u8..=40).collect(), summary }
+    }
+}
+
+impl Gen for Layer1 {
+    fn name(&self) -> String {
+        "c17/layer1-instruction-grids".into()
+    }
+    fn len(&self) -> usize {
+        self.evals.len().div_ceil(self.batch)
+    }
+    fn get(&self, i: usize) -> Case {
+        let es = &self.evals[i * self.batch..((i + 1) * self.batch).min(self.evals.len())];
+        Case {
+            code: batch_program(es),
+            calls: vec![self.calldata.clone()],
+            desc: format!("batch of {} evaluations starting with {}", es.len(), eval_desc(&es[0])),
+            weight: es.len() as u64,
+        }
+    }
+    fn split(&self, c: &Case) -> Vec<Case> {
+        // find the batch again by its code, then offer every evaluation on its own
+        for i in 0..self.len() {
+            let es = &self.evals[i * self.batch..((i + 1) * self.batch).min(self.evals.len())];
+            if batch_program(es) == c.code {
+                return es
+                    .iter()
+                    .map(|e| Case {
+                        code: batch_program(std::slice::from_ref(e)),
+                        calls: vec![self.calldata.clone()],
+                        desc: eval_desc(e),
+                        weight: 1,
+                    })
+                    .collect();
+            }
+        }
+        vec![]
+    }
+    fn describe(&self) -> Value {
+        self.summary.clone()
+    }
+}
+
+// ------------------------------------------------------------------------------ layer 2
+
+/// One symbol of the layer-2 instruction alphabet; `bytes(body_start)` gives its encoding.
+#[derive(Clone, Copy, Debug)]
+pub enum Sym {
+    Op(u8),
+    /// PUSH1 (body_start + 3): a plausible jump target inside the body
+    PushRel3,
+    Push(&'static [u8]),
+}
+
+const L2_ALPHABET: &[Sym] = &[
+    Sym::Push(&[0x5f]),
+    Sym::Push(&[0x60, 0x01]),
+    Sym::PushRel3,
+    Sym::Push(&[0x60, 0x20]),
+    Sym::Push(&[0x61, 0x5b, 0x01]),
+    Sym::Push(&[
+        0x7f, 0xff, 0xff, 0xff, 0xff, 0xff, 0xff, 0xff, 0xff, 0xff, 0xff, 0xff, 0xff, 0xff, 0xff, 0xff, 0xff, 0xff, 0xff, 0xff, 0xff, 0xff, 0xff, 0xff, 0xff, 0xff, 0xff, 0xff, 0xff, 0xff, 0xff, 0xff, 0xff,
+    ]),
+    Sym::Op(op::DUP1),
+    Sym::Op(op::DUP2),
+    Sym::Op(op::SWAP1),
+    Sym::Op(op::POP),
+    Sym::Op(op::ADD),
+    Sym::Op(op::SUB),
+    Sym::Op(op::LT),
+    Sym::Op(op::ISZERO),
+    Sym::Op(op::MLOAD),
+    Sym::Op(op::MSTORE),
+    Sym::Op(op::MSTORE8),
+    Sym::Op(op::MCOPY),
+    Sym::Op(op::MSIZE),
+    Sym::Op(op::SLOAD),
+    Sym::Op(op::SSTORE),
+    Sym::Op(op::TLOAD),
+    Sym::Op(op::TSTORE),
+    Sym::Op(op::CALLDATALOAD),
+    Sym::Op(op::CALLDATASIZE),
+    Sym::Op(op::CALLDATACOPY),
+    Sym::Op(op::CODESIZE),
+    Sym::Op(op::CODECOPY),
+    Sym::Op(op::KECCAK256),
+    Sym::Op(op::JUMP),
+    Sym::Op(op::JUMPI),
+    Sym::Op(op::JUMPDEST),
+    Sym::Op(op::PC),
+    Sym::Op(op::RETURN),
+    Sym::Op(op::REVERT),
+    Sym::Op(op::STOP),
+    Sym::Op(op::INVALID),
+    Sym::Op(op::RETURNDATASIZE),
+    Sym::Op(op::RETURNDATACOPY),
+];
+
+/// Stack / control-flow sub-alphabet for the longer programs of the thorough tier.
+const L2_FLOW_ALPHABET: &[Sym] = &[
+    Sym::Push(&[0x5f]),
+    Sym::Push(&[0x60, 0x01]),
+    Sym::PushRel3,
+    Sym::Op(op::DUP1),
+    Sym::Op(op::DUP2),
+    Sym::Op(op::SWAP1),
+    Sym::Op(op::POP),
+    Sym::Op(op::ADD),
+    Sym::Op(op::ISZERO),
+    Sym::Op(op::JUMP),
+    Sym::Op(op::JUMPI),
+    Sym::Op(op::JUMPDEST),
+    Sym::Op(op::PC),
+];
+
+const PROLOGUES: [&[u8]; 2] = [&[], &[0x60, 0x20, 0x60, 0x03, 0x60, 0x01]];
+const EPILOGUES: [&[u8]; 2] = [&[], &[0x60, 0x40, 0x52, 0x60, 0x60, 0x5f, 0xf3]];
+
+pub struct Layer2 {
+    alphabet: &'static [Sym],
+    name: String,
+    min_len: usize,
+    max_len: usize,
+    /// number of symbol sequences with length < L, for L in min_len..=max_len+1
+    offsets: Vec<usize>,
+}
+
+impl Layer2 {
+    pub fn new(name: &str, alphabet: &'static [Sym], min_len: usize, max_len: usize) -> Layer2 {
+        for s in alphabet {
+            if let Sym::Push(b) = s {
+                assert_eq!(b.len(), 1 + (b[0] - 0x5f) as usize, "malformed PUSH symbol");
+            }
+        }
+        let mut offsets = vec![0usize];
+        for l in min_len..=max_len {
+            let last = *offsets.last().unwrap();
+            offsets.push(last + alphabet.len().pow(l as u32));
+        }
+        Layer2 { alphabet, name: name.to_string(), min_len, max_len, offsets }
+    }
+    fn sequences(&self) -> usize {
+        *self.offsets.last().unwrap()
+    }
+    fn body(&self, mut seq: usize, start: usize) -> (Vec<u8>, Vec<usize>) {
+        let li = self.offsets.iter().rposition(|o| *o <= seq).unwrap();
+        let len = self.min_len + li;
+        seq -= self.offsets[li];
+        let k = self.alphabet.len();
+        let mut digits = vec![0usize; len];
+        for d in digits.iter_mut().rev() {
+            *d = seq % k;
+            seq /= k;
+        }
+        let mut out = vec![];
+        for d in &digits {
+            match self.alphabet[*d] {
+                Sym::Op(o) => out.push(o),
+                Sym::PushRel3 => out.extend_from_slice(&[0x60, (start + 3) as u8]),
+                Sym::Push(b) => out.extend_from_slice(b),
+            }
+        }
+        (out, digits)
+    }
+}
+
+impl Gen for Layer2 {
+    fn name(&self) -> String {
+        self.name.clone()
+    }
+    fn len(&self) -> usize {
+        self.sequences() * PROLOGUES.len() * EPILOGUES.len()
+    }
+    fn get(&self, i: usize) -> Case {
+        let variant = i % 4;
+        let seq = i / 4;
+        let (p, e) = (PROLOGUES[variant / 2], EPILOGUES[variant % 2]);
+        let (body, digits) = self.body(seq, p.len());
+        let mut code = p.to_vec();
+        code.extend_from_slice(&body);
+        code.extend_from_slice(e);
+        Case {
+            code,
+            calls: vec![vec![], (1u8..=36).collect()],
+            desc: format!("symbols {:?} prologue {} epilogue {}", digits, variant / 2, variant % 2),
+            weight: 1,
+        }
+    }
+    fn describe(&self) -> Value {
+        json!({
+            "alphabet_size": self.alphabet.len(),
+            "alphabet": self.alphabet.iter().map(|s| match s {
+                Sym::Op(o) => format!("{o:02x}"),
+                Sym::PushRel3 => "60<body_start+3>".to_string(),
+                Sym::Push(b) => hex::encode(b),
+            }).collect::<Vec<_>>(),
+            "lengths": [self.min_len, self.max_len],
+            "symbol_sequences": self.sequences(),
+            "prologues": PROLOGUES.iter().map(hex::encode).collect::<Vec<_>>(),
+            "epilogues": EPILOGUES.iter().map(hex::encode).collect::<Vec<_>>(),
+            "calldatas": ["", hex::encode((1u8..=36).collect::<Vec<u8>>())],
+            "messages_per_program": "two consecutive messages to the same contract (storage persists, transient storage must not)",
+        })
+    }
+}
+
+// ------------------------------------------------------------------------------ layer 3
+
+pub struct Layer3 {
+    cases: Vec<Case>,
+    families: BTreeMap<String, u64>,
+}
+
+const P4: [u64; 4] = [0, 1, 2, 33];
+
+fn ret_word_at_0(a: &mut Asm) {
+    a.push(0).op(op::MSTORE).push(32).push(0).op(op::RETURN);
+}
+
+impl Layer3 {
+    pub fn new() -> Layer3 {
+        let mut cases = vec![];
+        let mut families: BTreeMap<String, u64> = BTreeMap::new();
+        let cds = || vec![vec![], (1u8..=36).collect::<Vec<u8>>()];
+        let mut add = |fam: &str, desc: String, code: Vec<u8>, calls: Vec<Vec<u8>>, cases: &mut Vec<Case>| {
+            *families.entry(fam.to_string()).or_default() += 1;
+            cases.push(Case { code, calls, desc: format!("{fam} {desc}"), weight: 1 });
+        };
+
+        // (1) counted loop accumulating into storage: for i in 0..n { s[slot] += step }
+        for &n in &P4 {
+            for &step in &P4 {
+                for &slot in &P4 {
+                    for step_from_calldata in [false, true] {
+                        let mut a = Asm::new();
+                        a.push(0);
+                        a.dest("loop");
+                        a.push(n).op(op::DUP2).op(op::LT).op(op::ISZERO).jumpi("end");
+                        a.push(slot).op(op::SLOAD);
+                        if step_from_calldata {
+                            a.op(op::CALLDATASIZE);
+                        } else {
+                            a.push(step);
+                        }
+                        a.op(op::ADD).push(slot).op(op::SSTORE);
+                        a.push(1).op(op::ADD).jump("loop");
+                        a.dest("end");
+                        a.op(op::POP).push(slot).op(op::SLOAD);
+                        ret_word_at_0(&mut a);
+                        add("counted-loop", format!("n={n} step={step} slot={slot} calldatasize-step={step_from_calldata}"), a.finish(), cds(), &mut cases);
+                    }
+                }
+            }
+        }
+
+        // (2) memcpy: fill 6 words, MCOPY(dst, src, len), then a byte loop MLOAD/BYTE/MSTORE8
+        for &src in &P4 {
+            for &dst in &P4 {
+                for &len in &P4 {
+                    let mut a = Asm::new();
+                    // fill: for i in 0..6 { mem[32*i] = (i+1) * 0x0101..01 }
+                    let ones = refevm::word_from_be(&[1u8; 32]);
+                    a.push(0);
+                    a.dest("fill");
+                    a.push(6).op(op::DUP2).op(op::LT).op(op::ISZERO).jumpi("filled");
+                    a.op(op::DUP1).push(1).op(op::ADD).push_word(&ones).op(op::MUL); // value
+                    a.op(op::DUP2).push(32).op(op::MUL).op(op::MSTORE);
+                    a.push(1).op(op::ADD).jump("fill");
+                    a.dest("filled").op(op::POP);
+                    a.push(len).push(src).push(64 + dst).op(op::MCOPY);
+                    // byte loop: for j in 0..len { mem8[224 + dst + j] = byte0(mload(src + j)) }
+                    a.push(0);
+                    a.dest("copy");
+                    a.push(len).op(op::DUP2).op(op::LT).op(op::ISZERO).jumpi("copied");
+                    a.op(op::DUP1).push(src).op(op::ADD).op(op::MLOAD).push(0).op(op::BYTE);
+                    a.op(op::DUP2).push(224 + dst).op(op::ADD).op(op::MSTORE8);
+                    a.push(1).op(op::ADD).jump("copy");
+                    a.dest("copied").op(op::POP);
+                    a.op(op::MSIZE).push(0).op(op::RETURN);
+                    add("memcpy", format!("src={src} dst={dst} len={len}"), a.finish(), vec![vec![]], &mut cases);
+                }
+            }
+        }
+
+        // (3) jump table: dest = table + 9*idx + skew; arm i stores (0x5b + i) into slot 0
+        for &idx in &P4 {
+            for &skew in &P4 {
+                for (idx_from_calldata, high) in [(false, 0u32), (true, 0), (false, 32), (false, 64), (false, 255)] {
+                    let mut a = Asm::new();
+                    if idx_from_calldata {
+                        // first call-data byte
+                        a.push(0).op(op::CALLDATALOAD).push(248).op(op::SHR);
+                    } else {
+                        a.push(idx);
+                    }
+                    a.push(9).op(op::MUL).push_label("table").op(op::ADD).push(skew).op(op::ADD);
+                    if high > 0 {
+                        // a destination whose low bits are plausible but which is >= 2^32
+                        a.push_word(&two_pow(high)).op(op::ADD);
+                    }
+                    a.op(op::JUMP);
+                    a.label("table");
+                    for i in 0..3u8 {
+                        // 9 bytes per arm: JUMPDEST PUSH1 v PUSH0 SSTORE PUSH2 end JUMP
+                        a.op(op::JUMPDEST).push_exact(&[0x5b + i]).push(0).op(op::SSTORE).jump("end");
+                    }
+                    a.dest("end");
+                    a.push(0).op(op::SLOAD);
+                    ret_word_at_0(&mut a);
+                    let calls = if idx_from_calldata {
+                        vec![vec![idx as u8], vec![], vec![2, 9, 9]]
+                    } else {
+                        vec![vec![]]
+                    };
+                    add("jump-table", format!("idx={idx} skew={skew} idx-from-calldata={idx_from_calldata} plus={}", if high > 0 { format!("2^{high}") } else { "0".into() }), a.finish(), calls, &mut cases);
+                }
+            }
+        }
+
+        // (4) nested conditionals over (a, b, c)
+        for &x in &P4 {
+            for &y in &P4 {
+                for &z in &P4 {
+                    let mut a = Asm::new();
+                    // if x < y { if z == 0 { r=1 } else { r=2 } } else { if (x-y) s< (0-z) { r=3 } else { r=4 } }
+                    a.push(y).push(x).op(op::LT).jumpi("lt");
+                    a.push(z).push(0).op(op::SUB).push(y).push(x).op(op::SUB).op(op::SLT).jumpi("r3");
+                    a.push(4).jump("out");
+                    a.dest("r3").push(3).jump("out");
+                    a.dest("lt").push(z).op(op::ISZERO).jumpi("r1");
+                    a.push(2).jump("out");
+                    a.dest("r1").push(1);
+                    a.dest("out");
+                    a.op(op::DUP1).push(1).op(op::SSTORE);
+                    a.op(op::DUP1).push(2).op(op::TSTORE).push(2).op(op::TLOAD).op(op::ADD);
+                    // revert instead of return when z == 33 (storage must then stay untouched)
+                    a.push(0).op(op::MSTORE).push(32).push(0);
+                    if z == 33 {
+                        a.op(op::REVERT);
+                    } else {
+                        a.op(op::RETURN);
+                    }
+                    add("nested-conditionals", format!("a={x} b={y} c={z}"), a.finish(), cds(), &mut cases);
+                }
+            }
+        }
+
+        // (5) memory growth up to 64 KiB: touch offset k*unit with one of several instructions,
+        // then return MSIZE and the hash of the whole memory
+        let touches: [(&str, &[u8]); 8] = [
+            ("mstore8", &[op::MSTORE8]),
+            ("mstore", &[op::MSTORE]),
+            ("mload", &[op::MLOAD, op::POP]),
+            ("mcopy-dst", &[op::MCOPY]),
+            ("calldatacopy", &[op::CALLDATACOPY]),
+            ("codecopy", &[op::CODECOPY]),
+            ("keccak", &[op::KECCAK256, op::POP]),
+            ("returndatacopy0", &[op::RETURNDATACOPY]),
+        ];
+        for (tname, tops) in touches {
+            for &k in &P4 {
+                for unit in [1u64, 31, 32, 1985] {
+                    let off = k * unit;
+                    let mut a = Asm::new();
+                    a.push(0xab).push(5).op(op::MSTORE8);
+                    match tname {
+                        "mstore8" | "mstore" => {
+                            a.push(0xcd).push(off);
+                        }
+                        "mload" => {
+                            a.push(off);
+                        }
+                        "mcopy-dst" => {
+                            a.push(7).push(0).push(off);
+                        }
+                        "calldatacopy" | "codecopy" => {
+                            a.push(40).push(2).push(off);
+                        }
+                        "keccak" => {
+                            a.push(k).push(off);
+                        }
+                        _ => {
+                            a.push(0).push(0).push(off);
+                        }
+                    }
+                    a.ops(tops);
+                    a.op(op::MSIZE).op(op::DUP1).push(0).op(op::KECCAK256); // [msize, hash]
+                    a.push(0).op(op::MSTORE).push(32).op(op::MSTORE).push(64).push(0).op(op::RETURN);
+                    add("memory-growth", format!("{tname} offset={off}"), a.finish(), vec![(1u8..=36).collect()], &mut cases);
+                }
+            }
+        }
+        // (7) copies over dirty memory: bytes beyond the end of call data / code must read as zero
+        let far = max_word();
+        for (cname, copcode) in [("calldatacopy", op::CALLDATACOPY), ("codecopy", op::CODECOPY), ("mcopy", op::MCOPY)] {
+            for &d in &P4 {
+                for &n in &P4 {
+                    let mut srcs: Vec<Word> = P4.iter().map(|x| w(*x)).collect();
+                    srcs.push(w(35));
+                    srcs.push(far.clone());
+                    for src in srcs {
+                        if copcode == op::MCOPY && src == far {
+                            continue;
+                        }
+                        let mut a = Asm::new();
+                        for i in 0..4u64 {
+                            a.push_word(&max_word()).push(32 * i).op(op::MSTORE);
+                        }
+                        a.push(n).push_word(&src).push(d).op(copcode);
+                        a.op(op::MSIZE).push(0).op(op::RETURN);
+                        add("dirty-copy", format!("{cname} dest={d} src=0x{src:x} size={n}"), a.finish(), vec![(1u8..=36).collect()], &mut cases);
+                    }
+                }
+            }
+        }
+
+        // (8) persistence: storage survives the message, transient storage does not
+        for &k in &P4 {
+            for &v in &P4 {
+                let mut a = Asm::new();
+                a.push(k).op(op::TLOAD).push(0).op(op::MSTORE);
+                a.push(k).op(op::SLOAD).push(32).op(op::MSTORE);
+                a.push(v).op(op::CALLDATASIZE).op(op::ADD).op(op::DUP1).op(op::DUP1); // v + calldatasize, three copies
+                a.push(k).op(op::TSTORE).push(k).op(op::SSTORE).op(op::POP);
+                a.push(k).op(op::TLOAD).push(64).op(op::MSTORE);
+                a.push(k).op(op::SLOAD).push(96).op(op::MSTORE);
+                a.push(128).push(0).op(op::RETURN);
+                add("persistence", format!("key={k} value={v}+calldatasize"), a.finish(), vec![vec![], (1u8..=36).collect(), vec![7]], &mut cases);
+            }
+        }
+
+        // (6) deep stack: h items, one instruction that adds an item, then report the top of the
+        // stack (stack limit 1024: Yellow Paper 9.1)
+        let growers: [(&str, &[u8]); 10] = [
+            ("dup1", &[op::DUP1]),
+            ("dup16", &[0x8f]),
+            ("push0", &[op::PUSH0]),
+            ("push1", &[op::PUSH1, 0x2a]),
+            ("push32", &[op::PUSH32, 1, 2, 3, 4, 5, 6, 7, 8, 9, 10, 11, 12, 13, 14, 15, 16, 17, 18, 19, 20, 21, 22, 23, 24, 25, 26, 27, 28, 29, 30, 31, 32]),
+            ("pc", &[op::PC]),
+            ("msize", &[op::MSIZE]),
+            ("calldatasize", &[op::CALLDATASIZE]),
+            ("codesize", &[op::CODESIZE]),
+            ("returndatasize", &[op::RETURNDATASIZE]),
+        ];
+        for (gname, gops) in growers {
+            for h in [1022usize, 1023, 1024] {
+                let mut a = Asm::new();
+                for i in 0..h {
+                    if i % 2 == 0 {
+                        a.op(op::PUSH0);
+                    } else {
+                        a.op(op::CALLDATASIZE);
+                    }
+                }
+                a.ops(gops);
+                // drop the two items beneath the top first: reporting needs one free slot even
+                // if the instruction (wrongly) left 1025 items
+                a.op(op::SWAP1).op(op::POP).op(op::SWAP1).op(op::POP);
+                ret_word_at_0(&mut a);
+                add("deep-stack", format!("{gname} at height {h}"), a.finish(), vec![(1u8..=36).collect()], &mut cases);
+            }
+        }
+        Layer3 { cases, families }
+    }
+}
+
+impl Gen for Layer3 {
+    fn name(&self) -> String {
+        "c17/layer3-structured-programs".into()
+    }
+    fn len(&self) -> usize {
+        self.cases.len()
+    }
+    fn get(&self, i: usize) -> Case {
+        self.cases[i].clone()
+    }
+    fn describe(&self) -> Value {
+        json!({"families": self.families, "parameter_values": P4})
+    }
+}
+
+// ------------------------------------------------------------------------------ run / replay
+
+fn layer_json(s: &LayerStats, distinct: usize) -> Value {
+    json!({
+        "layer": s.name, "cases_enumerated": s.cases, "cases_run_on_the_actor": s.cases_run,
+        "messages_compared": s.evaluations, "instruction_evaluations_compared": s.instr_evaluations,
+        "excluded": s.excluded, "distinct_nontrivial_programs": distinct,
+        "outcomes": s.outcome_hist, "complete": !s.capped, "wall_s": s.wall_s, "describe": s.describe,
+    })
+}
+
+pub fn run(tier: &str) -> ! {
+    let thorough = tier == "thorough";
+    let t0 = Instant::now();
+    if let Err(e) = evmkit::self_test() {
+        eprintln!("C17: machinery self-test failed: {e}");
+        std::process::exit(2);
+    }
+    let threads = evmkit::threads();
+    let cap_s: f64 = if thorough { 1300.0 } else { 26.0 };
+    let deadline = Some(t0 + std::time::Duration::from_secs_f64(cap_s));
+    let mut run = mcx::evidence::Run::new("C17", tier, "exploration");
+    run.assumptions = vec![
+        "mcvm mirrors the FVM message semantics (value transfer, rollback, read-only propagation)".into(),
+        "refevm (checks/src/refevm.rs) is the specification: Yellow Paper + EIP-145/211/1153/3855/5656/7939, written independently of actors/evm".into(),
+        "gas does not exist in the native VM; programs whose reference run exceeds 10^4 steps or touches memory between 4 MiB and 2^32 are excluded and counted".into(),
+        "hook H1 (step budget 200000, memory cap 64 MiB) is armed as a safety net only; reaching it where refevm defines an outcome is reported as a disagreement".into(),
+        "failure kinds are compared by the exit-code constants exported by fil_actor_evm, with INVALID and undefined opcodes folded into one kind and RETURNDATACOPY out-of-bounds folded into the memory-access kind".into(),
+    ];
+    let l1 = Layer1::new(tier);
+    let l2 = Layer2::new("c17/layer2-all-short-programs", L2_ALPHABET, 0, if thorough { 4 } else { 3 });
+    let fl = if thorough { 5 } else { 4 };
+    let l2f = Layer2::new("c17/layer2-flow-subset", L2_FLOW_ALPHABET, fl, fl);
+    let l3 = Layer3::new();
+    let gens: Vec<&dyn Gen> = vec![&l1, &l3, &l2, &l2f];
+    let mut layers = vec![];
+    let mut evaluations = 0u64;
+    let mut keys: Vec<[u8; 16]> = vec![];
+    let mut exclusions: BTreeMap<String, u64> = BTreeMap::new();
+    let mut samples = vec![];
+    let mut complete = true;
+    for g in gens {
+        let mut s = run_layer(g, threads, deadline);
+        eprintln!(
+            "[C17] {}: cases={} run={} messages={} instr-evals={} excluded={:?} violations={} complete={} wall={:.1}s",
+            s.name, s.cases, s.cases_run, s.evaluations, s.instr_evaluations, s.excluded, s.violations.len(), !s.capped, s.wall_s
+        );
+        evaluations += s.instr_evaluations.max(s.evaluations);
+        for (k, v) in &s.excluded {
+            *exclusions.entry(k.clone()).or_default() += v;
+        }
+        for (_, c, msg) in &s.violations {
+            if msg.starts_with("MACHINERY") {
+                eprintln!("C17: {msg} — program {}", hex::encode(&c.code));
+                std::process::exit(2);
+            }
+            run.extra_violations.push(ViolationReport {
+                scenario: s.name.clone(),
+                base: "genesis+account".into(),
+                path: vec![PathStep { action: case_json(c), faults: vec![] }],
+                message: format!("{} — program {} ({})", msg, hex::encode(&c.code), c.desc),
+            });
+        }
+        let mut ks = std::mem::take(&mut s.nontrivial_keys);
+        ks.sort();
+        ks.dedup();
+        samples.extend(s.samples.iter().take(2).cloned());
+        complete &= !s.capped;
+        layers.push(layer_json(&s, ks.len()));
+        keys.extend(ks);
+    }
+    keys.sort();
+    keys.dedup();
+    let cx = &mut run.coverage_extra;
+    cx.insert("evaluations".into(), json!(evaluations));
+    cx.insert("distinct_nontrivial".into(), json!(keys.len()));
+    cx.insert("rule".into(), json!(
+        "layer 1: every (instruction, operand tuple) over the boundary alphabet, 48 evaluations per deployed contract, each result word compared; \
+         layer 2: every symbol sequence up to the length bound x 2 prologues (empty stack / three items) x 2 epilogues (none / store top of stack and return 96 bytes of memory), two consecutive messages (empty and 36-byte call data); \
+         layer 3: every parameter tuple of five program families. evaluations = instruction evaluations (layer 1) + messages (layers 2, 3) whose outcome, data and storage slots 0..3 were compared with refevm. \
+         A program is non-trivial when the reference execution of at least one of its messages completed >= 2 instructions; distinct = distinct code bytes (blake2b-128 of the deployed code, de-duplicated across all layers)."));
+    cx.insert("samples".into(), Value::Array(samples));
+    cx.insert("layers".into(), Value::Array(layers));
+    cx.insert("exclusions".into(), json!(exclusions));
+    cx.insert("exhaustive".into(), json!(complete && run.extra_violations.is_empty()));
+    cx.insert("threads".into(), json!(threads));
+    cx.insert("wall_cap_s".into(), json!(cap_s));
+    // the verdict line printed by `finish` takes `exhaustive` from the reports
+    run.reports.push(mcx::Report { scenario: "c17/enumeration".into(), exhaustive: complete, ..Default::default() });
+    run.finish()
 }
 
 /// Replay a violation file written by this check; `v` is the parsed replay JSON.
-pub fn replay(_v: &serde_json::Value) -> ! {
-    eprintln!("C17: replay not implemented");
-    std::process::exit(2)
+pub fn replay(v: &Value) -> ! {
+    let Some(c) = v["path"].get(0).and_then(|s| case_from_json(&s["action"])) else {
+        eprintln!("C17 replay: malformed replay file");
+        std::process::exit(2)
+    };
+    let store = mcvm::Store::new();
+    let world = World::new(&store);
+    let b = Bench::new(&world);
+    let r = b.run(&c);
+    if let Some(e) = r.excluded {
+        println!("NOT-REPRODUCED: the reference model excludes this program now ({e})");
+        std::process::exit(0);
+    }
+    match r.violation {
+        Some(m) => {
+            println!("REPRODUCED property=C17 {m} — program {}", hex::encode(&c.code));
+            std::process::exit(1)
+        }
+        None => {
+            println!("NOT-REPRODUCED: the recorded program agrees with the reference model on this tree");
+            std::process::exit(0)
+        }
+    }
 }
